@@ -4,7 +4,7 @@ from .. import q
 from ..fsm import reachable, reaches, find_path, assignments, holds, guard_atoms, atom_of
 
 TITLE = 'status IN endpoint: latch / retransmit / toggle'
-FLOOR = 40
+FLOOR = 100
 DECIDES = ('On USBSignalInEndpoint, for several widths (whole and partial last byte), both byte orders, several endpoint '
            'numbers and both signal_domain settings; states are identified by role (transmit = raises tx.valid, ack-wait = '
            'holds the toggle flip, latching = writes the register tx.payload reads): '
@@ -148,9 +148,15 @@ def slice_parts(e):
 
 
 def check(ctx, width, endianness, ep, domain):
-    tag = 'w%d,%s,ep%d,%s' % (width, endianness, ep, domain)
+    kw = dict(width=width, endpoint_number=ep)
+    if endianness is None:            # constructor defaults: documented as little endian, usb domain
+        tag = 'w%d,defaults,ep%d' % (width, ep)
+        endianness, domain = 'little', 'usb'
+    else:
+        tag = 'w%d,%s,ep%d,%s' % (width, endianness, ep, domain)
+        kw.update(endianness=endianness, signal_domain=domain)
     K = lambda role: '%s.%s[%s]' % (CLS, role, tag)
-    ir = ctx.ir(CLS, 'endpoints.status', width=width, endpoint_number=ep, endianness=endianness, signal_domain=domain)
+    ir = ctx.ir(CLS, 'endpoints.status', **kw)
     fsm = ctx.the_fsm(ir)
     nbytes = (width + 7) // 8
     S = lambda s: str(s)
@@ -250,6 +256,12 @@ def check(ctx, width, endianness, ep, domain):
     ctx.ob('C17.latch-source', K('latch.source'), ok, latches[0].loc if latches else pd.loc,
            'the transmitted register (width %s) must be loaded with all %d bits of self.signal (width %s) or of a '
            'full-width synchronised copy: %s' % (rinfo.w if rinfo else '?', width, sinfo.w, [q.fmt(a) for a in latches][:3]))
+    if domain != 'usb' and any(a.rhs.canon() == SIGNAL for a in latches) and \
+            any(getattr(a, 'synchronizer', False) for a in ir.assigns):
+        note = ('signal_domain=%r: the FFSynchronizer output is never read; the register samples self.signal directly '
+                '(clock-domain crossing is not part of the decided clauses)' % domain)
+        if note not in ctx.notes:
+            ctx.note(note)
     L = {q.state_of(a) for a in latches if a.state}
     no_ack = lambda e: not q.has(e, ACK, True)
     inflight = reachable(fsm, T, edge_ok=no_ack)
@@ -420,7 +432,7 @@ def check(ctx, width, endianness, ep, domain):
            'the endpoint FSM must run in the usb domain (found %s)' % fsm.domain)
 
 
-QUICK = [(16, 'little', 3, 'usb'), (20, 'big', 1, 'usb'), (8, 'big', 15, 'sync'), (1, 'little', 0, 'usb')]
+QUICK = [(16, 'little', 3, 'usb'), (20, 'big', 1, 'usb'), (8, 'big', 15, 'sync'), (1, 'little', 0, 'usb'), (24, None, 2, None)]
 
 
 def run(ctx):
